@@ -58,6 +58,16 @@ def prepare(ctx):
         ctx.coverage['obligations'] += 1
         return [], []
     ctx.engpy['text'] = text
+    ctx.coverage['trusted_base'] += [
+        'Model/PyIR.v: the executable big-step semantics of the Python subset (ints as N, Unsupported on anything else) and '
+        'harness/fjverif/gen_facts_engpy.py: fail-closed ast translator of the Reader memory methods and of the _run_fast / '
+        '_run_featured loop bodies (rules R1-R6 in its header); both are cross-checked on every run by evaluating the '
+        'regenerated IR inside Coq against the real engines (coverage.source_ir_agreeing)',
+        'Tie/EngPy_steps.v: reading of one loop iteration as a step on the model state (loop-carried ip/ops, '
+        'statistics.op_counter, RuntimeMemoryError produced by fjm_run.run from the memory exception); RunStatistics / '
+        'IODevice methods are interpreter primitives']
+    ctx.assumptions += ['EngPy source tie: _run_featured is taken with breakpoint_handler=None and show_trace=False; '
+                        'Reader.__init__/_init_memory, fjm_run.run and RunStatistics stay hand-transcribed']
     if not ctx.engpy['shared']:
         prepare_private(ctx, text)
         return [], []
